@@ -5,6 +5,9 @@ use flate2::read::DeflateDecoder;
 use crate::error::Result;
 use crate::Error;
 
+/// Upper bound for buffers pre-allocated from a length read from the (untrusted) input
+const MAX_PREALLOCATED_SIZE: usize = 64 * 1024;
+
 pub trait BinaryInput {
     fn read_u8(&mut self) -> Result<u8>;
     fn read_bytes(&mut self, count: usize) -> Result<&[u8]>;
@@ -104,7 +107,7 @@ pub trait BinaryInput {
         let compressed_len = self.read_var_u32()? as usize;
         let compressed = self.read_bytes(compressed_len)?;
         let mut deflater = DeflateDecoder::new(compressed);
-        let mut result = Vec::with_capacity(uncompressed_len);
+        let mut result = Vec::with_capacity(uncompressed_len.min(MAX_PREALLOCATED_SIZE));
         deflater
             .read_to_end(&mut result)
             .map_err(|err| Error::DecompressionFailure(format!("{err}")))?;
